@@ -1,7 +1,7 @@
 #!/bin/bash
 # tools/mutant.sh <patch.diff> <Cxx> [<Cxx>...]  — applies a seeded change to /repo, runs the
 # quick checks named, prints their verdict lines, and restores /repo (never commits).
-patch="$1"; shift
+patch="$(realpath "$1")"; shift
 cd /repo || exit 2
 # evidence files are only ever committed from runs on the unchanged tree: keep them aside
 rm -rf /verif/.s/evidence.keep && cp -a /verif/evidence /verif/.s/evidence.keep
